@@ -131,7 +131,7 @@ def container_obs(c):
 
 
 def gen_fit(rng):
-    t = rng.choice(["xy", "xy", "indexed", "hist", "unbinned"])
+    t = rng.choice(["xy", "xy", "indexed", "hist", "unbinned", "custom"])
     spec = {"type": t, "minimizer": rng.choice(["iminuit", "iminuit", "scipy"]), "do_fit": rng.random() < 0.5, "asym": rng.random() < 0.2}
     if t == "xy":
         mk = rng.choice(sorted(iolib.XY))
@@ -153,6 +153,10 @@ def gen_fit(rng):
         spec.update({"model": "io_normal", "edges": edges, "entries": [round(-3.5 + 7.0 * rng.random(), 3) for _ in range(rng.randint(20, 50))], "names": ["mu", "sigma"],
                      "ptrue": [0.2, 1.3], "cost": rng.choice(["nll", "nllr", "chi2"]), "bin_eval": rng.choice(["simpson", "numerical", "trapezoid"])})
         n = nb
+    elif t == "custom":
+        mk = rng.choice(sorted(iolib.CUSTOM))
+        spec.update({"model": mk, "names": list(iolib.CUSTOM[mk][1]), "ptrue": list(iolib.CUSTOM[mk][2]), "cost": "custom"})
+        n = 0
     else:
         spec.update({"model": "io_normal", "d": [round(-2.5 + 5.0 * rng.random(), 3) for _ in range(rng.randint(8, 20))], "names": ["mu", "sigma"], "ptrue": [0.2, 1.3], "cost": "nll"})
         n = len(spec["d"])
@@ -200,6 +204,8 @@ def build_fit(spec):
     elif t == "hist":
         fit = k.HistFit(k.HistContainer(bin_edges=list(spec["edges"]), fill_data=list(spec["entries"])), iolib.io_normal, cost_function=spec["cost"], bin_evaluation=spec["bin_eval"],
                         minimizer=spec["minimizer"])
+    elif t == "custom":
+        fit = k.CustomFit(iolib.CUSTOM[spec["model"]][0], minimizer=spec["minimizer"])
     else:
         fit = k.UnbinnedFit(list(spec["d"]), iolib.io_normal, cost_function=spec["cost"], minimizer=spec["minimizer"])
     for s in spec["sources"]:
@@ -223,15 +229,16 @@ def build_fit(spec):
 
 def fit_obs(fit, points):
     """Read script for fits (identical for original and reloaded object)."""
+    custom = type(fit).__name__ == "CustomFit"
     o = {"class": type(fit).__name__, "parameter_names": tuple(fit.parameter_names), "parameter_values": np.array(fit.parameter_values, dtype=float),
-         "did_fit": bool(fit.did_fit), "ndf": int(fit.ndf), "data": np.array(fit.data, dtype=float),
+         "did_fit": bool(fit.did_fit), "ndf": None if custom else int(fit.ndf), "data": None if custom else np.array(fit.data, dtype=float),
          "fixed": {k: float(v) for k, v in fit._fitter.fixed_parameters.items()}, "limited": {k: tuple(float(x) for x in v) for k, v in fit._fitter.limited_parameters.items()},
          "n_constraints": len(fit.parameter_constraints)}
     if o["did_fit"]:
         o["parameter_errors"] = np.array(fit.parameter_errors, dtype=float)
         o["parameter_cov_mat"] = None if fit.parameter_cov_mat is None else np.array(fit.parameter_cov_mat, dtype=float)
     srcs = {}
-    for where, cont in (("data", fit.data_container), ("model", fit._param_model)):
+    for where, cont in (() if custom else (("data", fit.data_container), ("model", fit._param_model))):
         for name, d in cont._error_dicts.items():
             e = d["err"]
             srcs[name] = (where, type(e).__name__, bool(e.relative), bool(d["enabled"]), d.get("axis"))
@@ -571,6 +578,8 @@ class IOMachine(Machine):
 
     def tags(self, kind, spec, detail):
         t = []
+        if detail.startswith("."):
+            t.append("obs:" + detail[1:].split(":")[0].split(".")[0].split("[")[0])
         if "sources" in detail and any(not s.get("enabled", True) for s in spec.get("sources", [])):
             t.append("disabled-source")
         if "overflow" in detail:
